@@ -183,6 +183,49 @@ Definition voice_body (d : db) (channel : str) (nicks : list str) (caller : str)
       end
   end.
 
+(* ---- Config.channel with a value (plugins/Config/plugin.py:65-82,107-114,295-298,313-330):
+   `config channel [<network>] #a,#b,... <name> <value>` writes the channel-specific value for every listed channel,
+   each write going through _setValue = checkCanSetValue ; group.set(value):
+     for channel in channels:
+         assert irc.isChannel(channel)
+         self._setValue(irc, msg, group.get(channel), value)
+         if network != '*':
+             self._setValue(irc, msg, group.get(':' + network.network).get(channel), value)
+     irc.replySuccess()
+   checkCanSetValue: isReadOnly -> error(Raise=True); capability = getCapability(irc, group._name);
+                     if not ircdb.checkCapability(msg.prefix, capability): irc.errorNoCapability(capability, Raise=True)
+   getCapability: 'owner' unless a part of the name is a channel -> '<channel>,op'; 'owner' again if some node on the
+   path is not _opSettable ([opset] is that input, [readonly] is isReadOnly(name)). *)
+Inductive cw :=
+| CWrite (ch : str) (net : bool)   (* group.get(ch).set(value) / the :network twin *)
+| CDenied (cap : str)              (* errorNoCapability(cap, Raise=True): aborted, nothing more is written *)
+| CReadOnly                        (* irc.error(..., Raise=True) *)
+| CSuccess
+| CRaiseW (e : exn).
+
+Definition config_cap (opset : bool) (ch : str) : res str :=
+  if opset then makeChannelCapability ch OP else Ok OWNER.
+
+(* one _setValue on the node of channel ch; k = what follows when it is allowed *)
+Definition set_value (d : db) (opset readonly : bool) (ch : str) (net : bool) (k : list cw) : list cw :=
+  if readonly then [CReadOnly]
+  else match config_cap opset ch with
+       | Raise e => [CRaiseW e]
+       | Ok cap => match holds d cap with
+                   | Ok true => CWrite ch net :: k
+                   | Ok false => [CDenied cap]
+                   | Raise e => [CRaiseW e]
+                   end
+       end.
+
+Fixpoint config_channel_set (d : db) (opset readonly netspec : bool) (channels : list str) : list cw :=
+  match channels with
+  | [] => [CSuccess]
+  | ch :: r =>
+      let rest := config_channel_set d opset readonly netspec r in
+      set_value d opset readonly ch false (if netspec then set_value d opset readonly ch true rest else rest)
+  end.
+
 (* ---- converters ---- *)
 Record cstate := CS { s_chan : option str;     (* state.channel *)
                       s_err : bool }.          (* state.errored *)
@@ -517,5 +560,10 @@ Definition run (v : value) : value :=
          match voice_body (gDb (nth_v 0 p)) (gS (nth_v 1 p)) (gLS (nth_v 2 p)) (gS (nth_v 3 p)) with
          | VMode t => L [I 0%Z; vLS t] | VDenied c => L [I 1%Z; vS c] | VRaise e => L [I 2%Z; I (exn_code e)]
          end
+  | 8 => (* Config.channel write (db opset readonly netspec channels) -> ((0 ch net) | (1 cap) | (2) | (3) | (4 exn))* *)
+         L (map (fun w => match w with
+                          | CWrite ch n => L [I 0%Z; vS ch; vB n] | CDenied c => L [I 1%Z; vS c] | CReadOnly => L [I 2%Z]
+                          | CSuccess => L [I 3%Z] | CRaiseW e => L [I 4%Z; I (exn_code e)] end)
+                 (config_channel_set (gDb (nth_v 0 p)) (gB (nth_v 1 p)) (gB (nth_v 2 p)) (gB (nth_v 3 p)) (gLS (nth_v 4 p))))
   | _ => L []
   end.
